@@ -275,6 +275,9 @@ def generate_simple_plan(
         start_revid = order[0]
     todo = order[order.index(start_revid) : order.index(stop_revid) + 1]
     heads_cache = FrozenHeadsCache(graph)
+    # Merge revisions that are left out of the plan (skip_full_merged), mapped
+    # to the revision that takes their place as a parent of their children.
+    skipped = {}
     # XXX: The output replacemap'd parents should get looked up in some manner
     # by the heads cache? RBC 20080719
     for oldrevid in todo:
@@ -287,6 +290,8 @@ def generate_simple_plan(
             parents.append(onto_revid)
         elif oldparents[0] in replace_map:
             parents.append(replace_map[oldparents[0]][0])
+        elif oldparents[0] in skipped:
+            parents.append(skipped[oldparents[0]])
         else:
             parents.append(onto_revid)
             parents.append(oldparents[0])
@@ -297,15 +302,21 @@ def generate_simple_plan(
                 if oldparent in additional_parents:
                     if heads_cache.heads((oldparent, onto_revid)) == {onto_revid}:
                         pass
-                    elif oldparent in replace_map:
-                        newparent = replace_map[oldparent][0]
+                    elif oldparent in replace_map or oldparent in skipped:
+                        if oldparent in replace_map:
+                            newparent = replace_map[oldparent][0]
+                        else:
+                            newparent = skipped[oldparent]
                         if parents[0] == onto_revid:
                             parents[0] = newparent
-                        else:
+                        elif newparent not in parents:
                             parents.append(newparent)
                     else:
                         parents.append(oldparent)
             if len(parents) == 1 and skip_full_merged:
+                # Children of this merge are replayed on top of the one
+                # parent that is left.
+                skipped[oldrevid] = parents[0]
                 continue
         parents = tuple(parents)
         newrevid = generate_revid(oldrevid, parents)
@@ -438,9 +449,17 @@ def rebase(repository, replace_map, revision_rewriter):
         revision_rewriter: Callable that handles rewriting individual revisions.
             Should accept (old_revid, new_revid, new_parents) parameters.
     """
-    # Figure out the dependencies
-    graph = repository.get_graph()
-    todo = list(graph.iter_topo_order(replace_map.keys()))
+    # Figure out the dependencies: a revision has to be replayed after the
+    # revisions whose replacements are among its new parents. (The old graph
+    # does not show all of them: a merge revision that the plan leaves out
+    # hides the relation between its parent and its child.)
+    new_to_old = {newrevid: oldrevid for oldrevid, (newrevid, _) in replace_map.items()}
+    todo = topo_sort(
+        {
+            oldrevid: tuple(new_to_old[p] for p in newparents if p in new_to_old)
+            for oldrevid, (_, newparents) in replace_map.items()
+        }
+    )
     pb = ui.ui_factory.nested_progress_bar()
     try:
         for i, revid in enumerate(todo):
